@@ -274,7 +274,7 @@ def check_keyboard(ctx, rep, tier):
             ed = kb[3][i_ed]
             # compare field-wise: constants must agree, parameters must be new()'s parameters
             for a_, b_ in zip(ed[3], ed0[3]):
-                if b_[0] in ('c',) or (b_[0] == 'adt' and not value_atoms(b_)):
+                if b_[0] in ('c',) or (b_[0] in ('adt', 'arr') and not value_atoms(b_)):
                     if a_ != b_:
                         okn, why = False, 'event decoder does not start as EventDecoder::new(..) (%s)' % term_str(ed)
                 elif a_ not in argv:
